@@ -40,6 +40,9 @@ struct Script {
     /// `(threads - 1 - t) * skew_call` slower
     skew_gen: u64,
     skew_call: u64,
+    /// if non-zero, only the first `lazy_calls` calls of a thread allocate
+    /// (lazy initialisation: later samples do not touch the allocator)
+    lazy_calls: u64,
     threads: u64,
 }
 
@@ -59,6 +62,7 @@ static SCRIPT: std::sync::Mutex<Script> = std::sync::Mutex::new(Script {
     gpanic_id: -1,
     skew_gen: 0,
     skew_call: 0,
+    lazy_calls: 0,
     threads: 1,
 });
 fn script() -> Script {
@@ -166,7 +170,9 @@ fn call<O: Val>(input_id: u64) -> O {
         PANICS.fetch_add(1, SeqCst);
         panic!("scripted panic");
     }
-    churn(s.call_allocs, s.alloc_size + j);
+    if s.lazy_calls == 0 || j < s.lazy_calls {
+        churn(s.call_allocs, s.alloc_size + j);
+    }
     vclock::advance(s.call_cost + s.call_slope * j + (s.threads - 1 - (t as u64).min(s.threads - 1)) * s.skew_call);
     O::make(input_id)
 }
@@ -296,6 +302,7 @@ pub fn exec(toks: &[&str]) -> String {
         gpanic_id: gi,
         skew_gen: skew[0],
         skew_call: skew[1],
+        lazy_calls: get("lazy").and_then(|v| v.parse().ok()).unwrap_or(0),
         threads: if ep_is_local { 1 } else { threads as u64 },
     };
     for t in 0..vclock::MAX_THREADS {
@@ -489,14 +496,28 @@ pub fn gen(rng: &mut Rng, n: usize, prec: u64) -> Vec<String> {
         };
         let slope = if allocs[1] > 0 && slope == 0 { 1 + rng.below(9) } else { slope };
         let costs = [costs[0], costs[1], slope, costs[3], costs[4], costs[5]];
+        // min_time is reached only through the clock: bound the number of
+        // rounds it can take on this cost script (a clock that no generation,
+        // call or read advances would never get there - by the documented rule
+        // itself; real clocks always advance).
+        let mint = if mint != "-" {
+            let m: u64 = mint.parse().unwrap();
+            let with_inputs = ep != "bench" && ep != "bench_local";
+            let per_round = if sk == "1" { costs[1].max(1000) } else { (if with_inputs { costs[0] } else { 0 }) + costs[1] + costs[5] };
+            m.min(2000 * per_round / 1000).to_string()
+        } else {
+            mint
+        };
         let ic = ep != "bench" && ep != "bench_local" && rng.chance(1, 3);
         let items = if rng.chance(1, 4) { (1 + rng.below(100)).to_string() } else { "-".into() };
         let panic = if rng.chance(1, 8) { format!("{}:{}", rng.below(t as u64), rng.below(12)) } else { "-".into() };
         let has_inputs = ep != "bench" && ep != "bench_local";
         let gpanic = if has_inputs && panic == "-" && rng.chance(1, 10) { format!("{}:{}", rng.below(t as u64), rng.below(12)) } else { "-".into() };
         let skew = if t > 1 && rng.chance(1, 2) { format!("{},{}", rng.below(40) * scale, rng.below(40) * scale) } else { "0,0".into() };
+        // lazy initialisation: only the first few calls of each thread allocate
+        let lazy = if allocs[1] > 0 && rng.chance(1, 3) { format!(" lazy={}", [1u64, 1, 2, 3, 5, 9][rng.below(6) as usize]) } else { String::new() };
         out.push(format!(
-            "bench prec={prec} ep={ep} in={} out={} mode={mode} T={t} sc={sc} ss={ss} maxt={maxt} mint={mint} sk={sk} ic={} items={items} cost={} alloc={} panic={panic} gpanic={gpanic} skew={skew}",
+            "bench prec={prec} ep={ep} in={} out={} mode={mode} T={t} sc={sc} ss={ss} maxt={maxt} mint={mint} sk={sk} ic={} items={items} cost={} alloc={} panic={panic} gpanic={gpanic} skew={skew}{lazy}",
             SHAPES[rng.below(4) as usize],
             SHAPES[rng.below(4) as usize],
             ic as u8,
